@@ -39,6 +39,74 @@ class Fn:
         self._defs = None
         self._reach = None
 
+    # ---- variant-aware reachability: paths on which a local known to hold enum variant k is later matched as another variant are infeasible
+    def feasible_reach(self, start, targets, removed_edges=(), start_state=None):
+        """Is one of `targets` reachable from block `start` along normal edges, not using `removed_edges`, on a path that is consistent with
+        the enum variants assigned on the way?  Tracks `local = Variant(..)` aggregates through plain moves and `Try::branch`/clone, and prunes
+        the edges of `switch discriminant(local)` that contradict the tracked variant (this is what makes an inlined `helper()?` precise)."""
+        targets = set(targets)
+        removed = set(removed_edges)
+        init = frozenset((start_state or {}).items())
+        seen = {(start, init)}
+        stack = [(start, init)]
+        steps = 0
+        while stack:
+            b, st = stack.pop()
+            steps += 1
+            if steps > 20000:
+                return True
+            if b in targets and (b != start or steps > 1):
+                return True
+            known = dict(st)
+            dsrc = {}
+            for s in self.blocks[b].stmts:
+                if s["k"] != "assign":
+                    continue
+                d = s["dst"]
+                rv = s["rv"]
+                if d.get("p"):
+                    if any(isinstance(x, str) and x == "deref" for x in d["p"]):
+                        continue
+                    known.pop(d["l"], None)
+                    continue
+                if rv["k"] == "agg" and rv.get("ak") == "adt" and "variant" in rv:
+                    known[d["l"]] = rv["variant"]
+                elif rv["k"] == "use" and (rv["op"].get("mv") or rv["op"].get("cp")) and not (rv["op"].get("mv") or rv["op"].get("cp")).get("p"):
+                    src = (rv["op"].get("mv") or rv["op"].get("cp"))["l"]
+                    if src in known:
+                        known[d["l"]] = known[src]
+                    else:
+                        known.pop(d["l"], None)
+                elif rv["k"] == "discr" and not rv["place"].get("p"):
+                    dsrc[d["l"]] = rv["place"]["l"]
+                    known.pop(d["l"], None)
+                else:
+                    known.pop(d["l"], None)
+            t = self.blocks[b].term
+            succs = self.succ(b)
+            if t["k"] == "call" and t.get("dst") and not t["dst"].get("p"):
+                nm = t["fn"].get("trait_method") or t["fn"].get("path", "").split("::")[-1]
+                a0 = (t["args"][0].get("mv") or t["args"][0].get("cp")) if t["args"] else None
+                if nm in ("branch", "clone") and a0 and not a0.get("p") and a0["l"] in known:
+                    known[t["dst"]["l"]] = known[a0["l"]]
+                else:
+                    known.pop(t["dst"]["l"], None)
+            if t["k"] == "switch":
+                op = t["op"].get("mv") or t["op"].get("cp")
+                if op and not op.get("p") and op["l"] in dsrc and dsrc[op["l"]] in known:
+                    v = known[dsrc[op["l"]]]
+                    tg = [c[1] for c in t["cases"] if c[0] == v]
+                    succs = tg[:1] if tg else [t["otherwise"]]
+            nst = frozenset(known.items())
+            for s2 in succs:
+                if (b, s2) in removed:
+                    continue
+                key = (s2, nst)
+                if key not in seen:
+                    seen.add(key)
+                    stack.append(key)
+        return False
+
     # ---- names
     def local_name(self, l):
         return self.locals[l].get("name")
@@ -318,9 +386,94 @@ def strip_generics(p):
     return "".join(out)
 
 
+def load_reference_functions():
+    import json
+    import os
+    p = os.path.join(os.path.dirname(os.path.dirname(os.path.abspath(__file__))), "reference_functions.json")
+    if not os.path.exists(p):
+        return None
+    with open(p) as fh:
+        return set(json.load(fh)["functions"])
+
+
+def _remap(x, lo):
+    """Deep copy of a statement/terminator/operand with every local number shifted by lo."""
+    if isinstance(x, dict):
+        out = {}
+        for k, v in x.items():
+            if k in ("l", "idx") and isinstance(v, int) and not isinstance(v, bool):
+                out[k] = v + lo
+            else:
+                out[k] = _remap(v, lo)
+        return out
+    if isinstance(x, list):
+        return [_remap(v, lo) for v in x]
+    return x
+
+
+def inline_call(fj, b, cj):
+    """Return a copy of function json fj in which the call terminating block b is replaced by the body of callee json cj."""
+    import copy
+    nj = dict(fj)
+    blocks = [dict(x) for x in fj["blocks"]]
+    locals_ = list(fj["locals"])
+    lo = len(locals_)
+    bo = len(blocks)
+    call = blocks[b]["term"]
+    tgt = call.get("tgt")
+    unw = call.get("unw")
+    for i, l in enumerate(cj["locals"]):
+        l2 = dict(l)
+        if l2.get("name") and i <= cj["nargs"]:
+            l2["name"] = None if i == 0 else l2.get("name")
+        l2["inlined_from"] = cj.get("path_hint", True)
+        locals_.append(l2)
+    # bind arguments
+    stmts = list(blocks[b]["stmts"])
+    for i, a in enumerate(call["args"]):
+        if i + 1 > cj["nargs"]:
+            break
+        stmts.append({"k": "assign", "dst": {"l": lo + 1 + i}, "rv": {"k": "use", "op": copy.deepcopy(a)}, "line": call.get("line"), "inline_bind": True})
+    blocks[b] = {"stmts": stmts, "term": {"k": "goto", "tgt": bo, "line": call.get("line")}}
+    if fj["blocks"][b].get("cleanup"):
+        blocks[b]["cleanup"] = True
+    for cb in cj["blocks"]:
+        nb = {"stmts": [_remap(s, lo) for s in cb["stmts"]]}
+        if cb.get("cleanup"):
+            nb["cleanup"] = True
+        t = _remap(cb["term"], lo)
+        k = t["k"]
+        if k == "goto":
+            t["tgt"] += bo
+        elif k == "switch":
+            t["cases"] = [[c[0], c[1] + bo] for c in t["cases"]]
+            t["otherwise"] += bo
+        elif k in ("drop", "assert", "call"):
+            if t.get("tgt") is not None:
+                t["tgt"] += bo
+        if k in ("drop", "assert", "call"):
+            if isinstance(t.get("unw"), int) and not isinstance(t.get("unw"), bool):
+                t["unw"] += bo
+            elif t.get("unw") == "continue" and isinstance(unw, int):
+                t["unw"] = unw
+        if k == "return":
+            if tgt is None:
+                t = {"k": "unreachable", "line": t.get("line")}
+            else:
+                nb["stmts"].append({"k": "assign", "dst": copy.deepcopy(call["dst"]), "rv": {"k": "use", "op": {"mv": {"l": lo}}}, "line": call.get("line"), "inline_ret": True})
+                t = {"k": "goto", "tgt": tgt, "line": t.get("line")}
+        elif k == "resume" and isinstance(unw, int):
+            t = {"k": "goto", "tgt": unw, "line": t.get("line")}
+        nb["term"] = t
+        blocks.append(nb)
+    nj["blocks"] = blocks
+    nj["locals"] = locals_
+    return nj
+
+
 class Program:
     def __init__(self, facts, include=("roughenough-lib", "roughenough_client-bin", "roughenough_kms-bin",
-                                        "roughenough_server-bin")):
+                                        "roughenough_server-bin"), known=None):
         self.facts = facts
         self.fns = {}
         self.adts = {}
@@ -353,6 +506,81 @@ class Program:
                     self._trait_impls[(im["trait"], name)].append(mp)
         self._callees = {}
         self._callers = None
+        self.inlined = {}
+        self.helper_fns = {}
+        if known is None and include is not None:
+            known = load_reference_functions()
+        if known:
+            self.inline_new_helpers(known)
+            self._callees = {}
+            self._callers = None
+
+    # ---- helper functions that did not exist on the reference tree are inlined into their callers, so that rules anchored on the
+    #      functions of the reference tree keep seeing the same code after an "extract function" refactoring
+    def inline_new_helpers(self, known, max_rounds=5):
+        def is_new(p):
+            f = self.fns.get(p)
+            return f is not None and p not in known and f.kind not in ("closure", "Closure") and "{closure" not in p and not f.derived
+
+        def new_calls(fn):
+            out = []
+            for bl in fn.blocks:
+                t = bl.term
+                if t["k"] != "call" or t.get("tgt") is None and False:
+                    continue
+                tg = self.call_targets(t)
+                if len(tg) == 1 and is_new(tg[0]) and tg[0] != fn.path and not t["fn"].get("virtual") and not t["fn"].get("unresolved"):
+                    out.append((bl.idx, tg[0]))
+            return out
+
+        def reaches_self(p, seen=None):
+            # recursion among new helpers: do not inline
+            seen = set()
+            stack = [p]
+            while stack:
+                q = stack.pop()
+                f = self.fns.get(q)
+                if f is None:
+                    continue
+                for bl in f.blocks:
+                    if bl.term["k"] == "call":
+                        for tg in self.call_targets(bl.term):
+                            if tg == p:
+                                return True
+                            if tg in self.fns and tg not in seen and is_new(tg):
+                                seen.add(tg)
+                                stack.append(tg)
+            return False
+
+        recursive = {p for p in self.fns if is_new(p) and reaches_self(p)}
+        for _ in range(max_rounds):
+            changed = False
+            for path in list(self.fns):
+                fn = self.fns[path]
+                sites = [(b, c) for (b, c) in new_calls(fn) if c not in recursive and not new_calls(self.fns[c])]
+                if not sites:
+                    continue
+                j = fn.j
+                for (b, c) in sites:
+                    j = inline_call(j, b, self.fns[c].j)
+                    self.inlined.setdefault(path, []).append(c)
+                self.fns[path] = Fn(path, j, fn.crate)
+                changed = True
+            if not changed:
+                break
+        # helpers that are no longer called anywhere live on only inside their callers
+        still = set()
+        for f in self.fns.values():
+            for bl in f.blocks:
+                if bl.term["k"] == "call":
+                    still.update(self.call_targets(bl.term))
+                    for c in bl.term.get("closures", []) or []:
+                        still.add(c[3:] if c.startswith("fn:") else c)
+        self.helper_fns = {}
+        used = {c for cs in self.inlined.values() for c in cs}
+        for p in list(self.fns):
+            if p in used and p not in still and is_new(p):
+                self.helper_fns[p] = self.fns.pop(p)
 
     def fn(self, path):
         return self.fns.get(path)
